@@ -52,7 +52,7 @@ def scenario(rng, kind, tier):
         if kind == 'cwmm':
             sc['trainer_kw'] = dict(max_concentration=float(rng.choice([500, 50, 20, 200])))
         if kind == 'cbmm':
-            sc['opts'] = dict(affiliation_eps=[0, 1e-10][int(rng.integers(2))])
+            sc['opts'] = dict(affiliation_eps=[0, 1e-10, 1e-3][int(rng.integers(3))])
             sc['D'] = int(rng.integers(2, 4))
             sc['trainer_kw'] = dict(max_concentration=float(rng.choice([50.0, 20.0, 100.0])))
             sc['iterations'] = min(sc['iterations'], 2)
@@ -108,6 +108,17 @@ def cases(tier, seed, args):
         n = 42 if q else 420
         for i in range(n):
             sc = scenario(rng, ml.KINDS[i % 7], tier)
+            out.append(dict(t='model', **sc))
+        # clipping constants that are visible at Flt resolution on confident (separable) posteriors: the E-steps clip, the
+        # final predict / fit_predict posterior never does
+        for i in range(7 if q else 42):
+            kind = ml.KINDS[i % 7]
+            sc = scenario(rng, kind, tier)
+            sc.update(regime='separable', init='soft', dtype='float64', K=3, iterations=2 + i % 2, sam=False, aligner=False)
+            if kind in ('cacgmm', 'cbmm', 'gcacgmm', 'vmfcacgmm'):
+                sc['opts'] = dict(sc['opts'], affiliation_eps=[1e-3, 1e-2][i % 2])
+            if sc.get('wca_type') is None or kind in ml.INTEGRATION:
+                pass
             out.append(dict(t='model', **sc))
     if prop == 'inlinepa':
         for (K, T) in ([(2, 1), (2, 2), (3, 1)] if q else [(2, 1), (2, 2), (3, 1), (3, 2)]):
